@@ -445,6 +445,11 @@ class Repo:
                     if r:
                         return self.fold(r[0], r[1].mod, r[1], env, depth + 1)
                     raise Unfoldable(f"self.{expr.attr}")
+                if mod is not None and base.id in mod.classes:
+                    # a class of this very module (a private namespace class the module defines for itself)
+                    for k in self.mro(mod.classes[base.id]):
+                        if expr.attr in k.consts:
+                            return self.fold(k.consts[expr.attr], k.mod, k, env, depth + 1)
                 cs = self.classes().get(base.id, [])
                 if len(cs) == 1:
                     r = self.class_const(base.id, expr.attr)
